@@ -165,6 +165,8 @@ type SrvH struct {
 	uuid  map[int]string
 	hooks *hookRec
 	res   *resolvedRec
+	// wedged: a snapshot of the server's state did not return within the watchdog
+	wedged bool
 }
 
 type SrvCfg struct {
@@ -229,16 +231,33 @@ func NewSrvH(cfg *SrvCfg) (*SrvH, error) {
 }
 
 func (h *SrvH) sessionIDs() map[string]bool {
-	o := map[string]bool{}
-	for _, v := range h.S.VerifSessions() {
-		o[v.ID] = true
+	// read under a watchdog: a server whose session table is locked for good must end the case
+	// as a hang, not the run
+	res := make(chan map[string]bool, 1)
+	go func() {
+		o := map[string]bool{}
+		for _, v := range h.S.VerifSessions() {
+			o[v.ID] = true
+		}
+		res <- o
+	}()
+	select {
+	case o := <-res:
+		return o
+	case <-time.After(stepTO()):
+		noteIfWedged()
+		wdFired.Add(1)
+		h.wedged = true
+		return map[string]bool{}
 	}
-	return o
 }
 
 // Connect opens a Modify RPC as session c.
 func (h *SrvH) Connect(c int) error {
 	before := h.sessionIDs()
+	if h.wedged {
+		return errors.New("the server's session table could not be read within the watchdog (hang)")
+	}
 	fctx, fcancel := context.WithCancel(context.Background())
 	f := &fakeModify{ctx: fctx, cancel: fcancel, in: make(chan *spb.ModifyRequest), ready: make(chan struct{}, 1), done: make(chan error, 1), failSendAfter: -1}
 	gidc := make(chan string, 1)
